@@ -20,6 +20,7 @@ import CV.Drv.ClassTable
 import CV.Drv.NodeTwo
 import CV.Drv.HttpLex
 import CV.Drv.HttpClient
+import CV.Drv.HttpPipe
 import CV.Drv.ValueTree
 import CV.Drv.WebSocketEndpoint
 /-
@@ -34,7 +35,7 @@ def machines : List (String × Machine) :=
     ("auth", C20.authMachine), ("session", C20.sessionMachine), ("vhost", C20.vhostMachine),
     ("httpresp", httprespMachine), ("ws", wsMachine), ("wse", wseMachine),
     ("http", httpMachine), ("poller", pollerMachine), ("wake", wakeMachine), ("stream", streamMachine), ("node", nodeMachine), ("node2", node2Machine), ("http14", http14Machine), ("conn", C12.connMachine),
-    ("classtable", CT.classTableMachine), ("httplex", httplexMachine), ("httpclient", httpclientMachine), ("valuetree", valuetreeMachine) ]
+    ("classtable", CT.classTableMachine), ("httplex", httplexMachine), ("httpclient", httpclientMachine), ("httppipe", httppipeMachine), ("valuetree", valuetreeMachine) ]
 
 def main (args : List String) : IO UInt32 := do
   match args with
